@@ -66,6 +66,14 @@ theorem abort_no_trace_hist (h : List Op) (t : List TxOp) (s : Engine)
     obtain ⟨h1, _, _, _, h5, h6, h7, h8, h9, h10, h11, h12, h13⟩ := this
     exact ⟨h1, h8, h9, h6, h7, h10, h11, h5, h12, h13⟩
 
+/-- vector search never returns a node that a published run tombstones (fix b85f233 of the index
+    builder; a deleted node is not an existing node) -/
+theorem vsearch_excludes_deleted (s : Engine) (n : Nat) (h : n ∈ s.vecNodes) : s.isTombstoned n = false := by
+  unfold Engine.vecNodes at h
+  have := (List.mem_filter.mp h).2
+  unfold Engine.isTombstoned
+  simpa using this
+
 /-! ### non-vacuity -/
 
 def A : Nat := 321
